@@ -17,8 +17,8 @@ Here is a semantic property the library is supposed to satisfy:
 Your task: produce {n} DIFFERENT, independent, realistic source changes ("seeded bugs") to the library code under {wt}/spydrnet, each of which
   (a) breaks the property above (a user relying on the statement would be wronged),
   (b) still imports/compiles and still passes the ENTIRE existing test-suite, run as:
-        cd {wt} && /venv/bin/python -m pytest -q -p no:cacheprovider -x --timeout=900 2>&1 | tail -5
-      (578 tests pass on the unchanged tree; the suite takes a few minutes; run it for each change separately), and
+        cd {wt} && /venv/bin/python -m pytest -q -p no:cacheprovider --timeout=900 2>&1 | tail -5
+      (on the unchanged tree this prints "4 failed, 580 passed, 7 skipped, 32 xfailed ..." - the 4 failures are pre-existing sub-tests about two 0-byte example zip files and are the baseline; with your change the summary must be exactly the same; the suite takes about 15 seconds; run it for each change separately), and
   (c) needs something SPECIFIC to manifest: a particular multi-step sequence of operations, an unusual input, a particular order of calls, a refused call at a particular point, or two cooperating sites that each look fine alone. Do NOT make changes that ordinary use exposes at once (e.g. breaking the basic effect of a common call). Prefer bugs of the kind a real maintainer could plausibly introduce in a refactoring or optimisation (a lost update in a rarely used branch, a stale cache entry, an off-by-one in an index, a wrong variable in a rarely used path, a missing rollback, a changed order of two statements).
 Each change must be small (a few lines), must only touch files under spydrnet/ (not tests, not examples), and must be a behaviour change, not a crash-on-import.
 
@@ -28,4 +28,5 @@ For each change i (1..{n}) deliver, in the directory {wt}/_seeded/{pid}_<i>/ :
   - meta.json : {{"property": "{pid}", "summary": "<one sentence: what the change does>", "needs": "<what specific sequence/input/condition it needs in order to manifest>", "files": [...], "tests_passed": true}}
 Work on one change at a time: make it, run the demo (must FAIL), run the full test-suite (must pass), save `git diff -- spydrnet > _seeded/{pid}_<i>/patch.diff`, then `git checkout -- spydrnet` to restore the tree, run the demo again (must PASS), and go on to the next. Leave the worktree clean at the end (apart from the untracked _seeded directory). If a candidate change makes an existing test fail, discard it and try another one. Do not commit anything.
 
+Never use `git stash` (it is shared between worktrees). Demos run from a sub-directory need `import sys, os; sys.path.insert(0, os.getcwd())` before `import spydrnet`.
 Notes: python is /venv/bin/python (3.12); spydrnet is imported from the worktree when cwd is the worktree (import spydrnet as sdn). There is no network. Report back a short list of what you produced (one line per change) - nothing else is needed.""")
